@@ -5,6 +5,36 @@ import json, subprocess, os
 ALL = ["C%02d" % i for i in range(1, 21)]
 # id -> (category, technique, level text, level note, design ref)
 CHECKS = {
+ "C05": ("model_checking",
+  "stateless exploration of all thread schedules up to a preemption bound under a controlled scheduler that owns every interpreter-instruction boundary; generic deep-snapshot invariance of all shared state under every (value, operation) pair; separate free-running race-detector pass over operation pairs",
+  "Every schedule (<= 2 preemptions quick, 3 threads / 3 preemptions thorough) of threads initialising and running one shared *Program on shared frozen values gives each thread exactly its solo transcript (probe trace, globals, error, backtrace, step count); no read-only or rejected operation, including every advertised method, writes to any shared object (generic reflect/unsafe snapshot); the race detector reports nothing for any pair of operations on any shared value or for concurrent Init.",
+  "Scheduling points are instruction boundaries (and instructions inside built-in callbacks); intra-instruction preemption is covered by the snapshot invariant and the race pass, not by schedules. The Go race detector and memory model are trusted.",
+  "DESIGN.md §3 C05"),
+ "C08": ("exploration",
+  "exhaustive enumeration of all signatures x all call shapes (compiled CALL* opcodes and starlark.Call), and of UnpackArgs specs x call shapes x argument types, against a reference binder and a Python 3 differential",
+  "All 280 signatures (<=3 positional, */ *args, <=2 keyword-only, **kwargs; def and lambda) x all calls (0-4 positional, named subsets, *seq of length 0-3, **dict variants) bind exactly as the reference binder written from the spec says, and as CPython does on the shared subset; UnpackArgs/UnpackPositionalArgs specs of <=3 parameters over ?/?? markers x 8 target types never clobber the target of a wrong-typed argument.",
+  "Trusts the reference binder (cross-checked with CPython) and the reader of the UnpackArgs doc comment; larger signatures are outside the bound.",
+  "DESIGN.md §3 C08"),
+ "C09": ("exploration",
+  "exhaustive planting of each static-rule violation at every syntactic position of generated base programs x all 64 FileOptions vectors against an independent static checker; exhaustive enumeration of call graphs for dynamic recursion",
+  "Production rejects a planted program iff the independent static checker does, with its first error inside an offending span and before any code runs, for every plant position and every one of the 2^6 option vectors; every call graph over <=4 functions (direct, lambda, key= callback, second closure edges) fails dynamically exactly when a function code already active is re-entered with Recursion off.",
+  "Trusts the reference static checker written from spec.md and options.go; legacy use-before-def under GlobalReassign is tolerated, not judged; base programs bounded by chain length.",
+  "DESIGN.md §3 C09"),
+ "C13": ("exploration",
+  "exhaustive enumeration of receivers (all strings/bytes/lists/tuples of length 0-5 over 3 letters, ranges over [-4,4]^3) x all index/slice triples and method argument tuples, against a spec-derived Python 3 batch oracle",
+  "Every indexing, slicing and sequence/string method call in the bound returns the value the spec defines (Python 3's on the shared subset, with a table of documented deviations) or fails where the spec says so. Exhaustive within the bound.",
+  "Trusts oracle.py (each operation transcribed from doc/spec.md and cross-checked against CPython's primitive; unexplained disagreement is a harness error); ASCII only; argument shapes the spec leaves undefined are not generated.",
+  "DESIGN.md §3 C13"),
+ "C14": ("exploration",
+  "exhaustive enumeration of syntax trees (all forms, bounded size/depth; operator-nesting profile) x layout vectors with 0-2 deviations x literal spellings, round-tripped through the parser; near-miss texts judged by an independent Earley recogniser for grammar.txt",
+  "parse(render(t)) equals t structurally with exact literal values and node start positions for every enumerated tree, layout and literal spelling; every single-token deletion/duplication/swap and paren-pair removal of each short valid text is rejected (parser or resolver, positioned) iff the independent recogniser says it is outside the grammar, and accepted texts print back to the same token stream.",
+  "Trusts the AST/renderer/precedence table and the Earley recogniser in internal/c14 (self-checked on every canonical rendering); near-misses accepted only by the documented wide grammar are skipped.",
+  "DESIGN.md §3 C14"),
+ "C15": ("exploration",
+  "exhaustive enumeration of values (every Unicode scalar value, all byte pairs, floats over every exponent x mantissa patterns, boundary ints, container shapes incl. shared and cyclic) through repr -> parse -> eval",
+  "For every enumerated value eval(repr(v)) equals v with the same type (bit-identical floats), str(s) == s, Quote/unquote are inverse, and str/repr of every cyclic variant terminate. Exhaustive within the enumerated families.",
+  "Uses starlark.Equal for comparison of containers (C11 decides equality); cyclic cases run in crash-isolated workers.",
+  "DESIGN.md §3 C15"),
  "C16": ("exploration",
   "exhaustive enumeration of call chains x failing operation kinds x layouts placing every position-table delta (line, column, pc) on each side of each saturation boundary, against the renderer's recorded token positions",
   "For every enumerated case every frame of EvalError.CallStack names the right function at exactly the line and column where the call's '(' or the failing operator token was written, built-in frames are in place and Backtrace() lists the same frames in order. All combinations of the column/line boundary sets for the two rows of an operation, pc fillers, link layouts and the stated extremes are covered.",
